@@ -14,6 +14,8 @@ import (
 	"path/filepath"
 	"sort"
 	"strings"
+	"syscall"
+	"time"
 )
 
 type seededMeta struct {
@@ -62,6 +64,9 @@ func selfTest(spec *PropSpec, ids []string, repo, verif string, known []KnownFin
 		go func(i int) {
 			sem <- struct{}{}
 			defer func() { <-sem; done <- i }()
+			// machine-wide: several thorough checks may run at the same time, each analysis is a process of ~1 GB
+			release := acquireSlot()
+			defer release()
 			j := jobs[i]
 			tmp, err := os.MkdirTemp("", "bpmnlint-seeded-")
 			if err != nil {
@@ -127,4 +132,32 @@ func selfTest(spec *PropSpec, ids []string, repo, verif string, known []KnownFin
 		"seeded_faults_hit":         hit,
 		"seeded_faults_skipped_why": skippedNames,
 	}
+}
+
+// acquireSlot takes one of a fixed number of machine-wide slots (advisory file locks under the temp directory,
+// created on demand) and returns the function that gives it back. If the lock files cannot be used the caller
+// simply proceeds: the slots bound memory, they are not needed for correctness.
+func acquireSlot() func() {
+	dir := filepath.Join(os.TempDir(), "bpmnlint-slots")
+	if err := os.MkdirAll(dir, 0o777); err != nil {
+		return func() {}
+	}
+	const slots = 12
+	for attempt := 0; attempt < 20000; attempt++ {
+		for i := 0; i < slots; i++ {
+			f, err := os.OpenFile(filepath.Join(dir, fmt.Sprintf("slot-%d", i)), os.O_CREATE|os.O_RDWR, 0o666)
+			if err != nil {
+				return func() {}
+			}
+			if err := syscall.Flock(int(f.Fd()), syscall.LOCK_EX|syscall.LOCK_NB); err == nil {
+				return func() {
+					_ = syscall.Flock(int(f.Fd()), syscall.LOCK_UN)
+					_ = f.Close()
+				}
+			}
+			_ = f.Close()
+		}
+		time.Sleep(50 * time.Millisecond)
+	}
+	return func() {}
 }
